@@ -64,6 +64,7 @@ Inductive cevent :=
 | CWillOk (c : N)                     (* text "+OK" after a will registration *)
 | CEngine (c : N) (will : bool) (cm : cmd)   (* ghost: db.Lock / db.UnLock entered on behalf of c *)
 | CRequeued (c : N) (cm : cmd)        (* ghost: Close -> ProcessCommad pushed a WILL-typed command back *)
+| CRegistered (c : N) (cm : cmd)      (* ghost: a will command was accepted into the will queue of c *)
 | CCrash (c : N)                      (* unbounded recursion in ProcessLockResultCommand of closed connection c *)
 | CBlocked (c : N)                    (* Close of c blocks forever on lockWaiter <- result *)
 | CLoopFuel.
@@ -265,6 +266,7 @@ Definition cstep (cf : cfg) (st : cstate) (a : caction) : cstate * list cevent :
       | Some _ => (st, [])
       | None =>
           let st := set_conns st (aset (cs_conns st) c (mkConn k true false 0)) in
+          let st := set_wills st c [] in
           (set_rs st (set_target (cs_rs st) c (Some c)), [])
       end
   | CInit c cid =>
@@ -294,14 +296,14 @@ Definition cstep (cf : cfg) (st : cstate) (a : caction) : cstate * list cevent :
   | CWill c cm =>
       if usable st c then
         match k_kind (conn_of (cs_conns st) c) with
-        | KBin => (set_wills st c (wills_of st c ++ [(false, cm)]), [])           (* 1476-1498 *)
-        | KText => (set_wills st c (wills_of st c ++ [(will_typed cf cm, cm)]), [CWillOk c])   (* 2678-2688, 2723-2733 *)
+        | KBin => (set_wills st c (wills_of st c ++ [(false, cm)]), [CRegistered c cm])           (* 1476-1498 *)
+        | KText => (set_wills st c (wills_of st c ++ [(will_typed cf cm, cm)]), [CRegistered c cm; CWillOk c])   (* 2678-2688, 2723-2733 *)
         end
       else (st, [])
   | CClose c =>
       match aget (cs_conns st) c with
       | Some k =>
-          if k_open k && negb (text_busy st c) then
+          if k_open k && match k_kind k with KBin => true | KText => negb (text_busy st c) end then
             (* closed := true; every proxy pointing here -> default protocol; willCommands := nil; drain *)
             let st := set_conns st (aset (cs_conns st) c (mkConn (k_kind k) false (k_inited k) (k_cid k))) in
             let st := set_rs st (mkRs (repoint_all (r_target (cs_rs st)) c) (r_await (cs_rs st)) (r_chan (cs_rs st))) in
